@@ -9,3 +9,4 @@ def check(rep, tier):
     from contracts import containers_unbounded
     rep.run(containers_unbounded.run, rep, tier)
     rep.run(containers.run_flatten_layout, rep)
+    rep.run(containers.run_float_leaves, rep)
